@@ -4,60 +4,59 @@ def rep(old, new, cnt=1):
     global s
     assert s.count(old) == cnt, (s.count(old), old[:70])
     s = s.replace(old, new)
-rep('''            bq = lay.new_box(hosts_net := None)
-            Q = w.add_host(w.net.hosts[P].lan, (lay.boxes[bq]["ip"], 40000 + rng.randrange(20000)), bq, "none")''',
-    '''            rbox = w.net.hosts[R].box
-            bq = lay.new_box(lay.boxes[rbox]["net"] if rbox else None)
-            Q = w.add_host(w.net.hosts[P].lan, (lay.boxes[bq]["ip"], 40000 + rng.randrange(20000)), bq, "none")''')
-rep('''def table_cfgs(rng, variants: int, placements=PLACEMENTS, history="normal"):
+rep('''LEAN_TARGETS = ["Ipv8.C13.Props"]''', '''import sys as _sys
+
+# the theorems over the heavy kernel tables (PropsThorough.lean) are built and re-proved in the thorough tier only
+LEAN_TARGETS = ["Ipv8.C13.Props"] + (["Ipv8.C13.PropsThorough"] if "thorough" in _sys.argv[1:] else [])
+LEANCHECKER_MODULES = ["Ipv8.C13.PropsThorough"] if "thorough" in _sys.argv[1:] else []''')
+rep('''def table_cfgs(rng, variants: int, placements=PLACEMENTS, history="normal", styles=("old", "new"), klass="std"):
     for tR in TYPES:
         for tP in TYPES:
             for pl in placements:
-                for style in ("old", "new"):
-                    for _v in range(variants):
-                        yield {"tR": tR, "tP": tP, "placement": pl, "style": style, "history": history,''',
-    '''# further scenario classes: (placements, styles) each is run over, with history "normal"
-CLASSES = {
-    "lan-collision": (["same", "diff"], ("old", "new")),    # requester already knows a peer with the introduced peer's LAN address
-    "foreign-entry": (["diff", "same", "public"], ("old", "new")),  # address first introduced through another overlay
-    "bootstrap": (PLACEMENTS, ("old",)),                     # the introducer is a blacklisted bootstrap server
-    "own-machine": (["public", "diff"], ("old", "new")),     # introducer behind a NAT, introduced peer on its machine
-    "capacity": (["diff", "same"], ("old",)),                # introducer holds exactly max_peers peers
-}
-
-
-def table_cfgs(rng, variants: int, placements=PLACEMENTS, history="normal", styles=("old", "new"), klass="std"):
-    for tR in TYPES:
-        for tP in TYPES:
-            for pl in placements:
-                for style in styles:
-                    for _v in range(variants):
-                        yield {"klass": klass,
-                               "tR": tR, "tP": tP, "placement": pl, "style": style, "history": history,''')
-rep('''                               "overlays": "other-first" if rng.random() < 0.3 else "single",''',
-    '''                               "overlays": "other-first" if klass == "std" and rng.random() < 0.3 else "single",''')
-rep('''    if ctx.thorough():
-        # exhaustive small scope''', '''    for klass, (pls, styles) in CLASSES.items():
-        for cfg in table_cfgs(ctx.rng, ctx.scale(1, 3), placements=pls, styles=styles, klass=klass):
+                for style in styles:''', '''def table_cfgs(rng, variants: int, placements=PLACEMENTS, history="normal", styles=("old", "new"), klass="std",
+               thin: bool = False):
+    """every (requester type, introduced type, placement, style); `thin` (quick tier): one of the two styles per
+    (types, placement), alternating — every NAT type pair x placement still occurs, each style in half of them"""
+    for a, tR in enumerate(TYPES):
+        for b, tP in enumerate(TYPES):
+            for c, pl in enumerate(placements):
+                for style in (styles if not thin or len(styles) == 1 else (styles[(a + b + c) % 2],)):''')
+rep('''    for hist in HISTORIES:
+        for cfg in table_cfgs(ctx.rng, ctx.scale(1, 4), history=hist):
             scripted(ctx, cfg, use_model, batch)
             if len(batch) >= 200:
                 flush(ctx, batch)
-    if ctx.thorough():
-        # exhaustive small scope''')
-rep('''    for hist in HISTORIES:
-        for cfg in table_cfgs(ctx.rng, 3, history=hist):
-            scripted(ctx, cfg, False, [])
-            if len(ctx.failures) >= 20:
-                return''', '''    for hist in HISTORIES:
-        for cfg in table_cfgs(ctx.rng, 3, history=hist):
+    for klass, (pls, styles) in CLASSES.items():
+        for cfg in table_cfgs(ctx.rng, ctx.scale(1, 3), placements=pls, styles=styles, klass=klass):''',
+ '''    quick = not ctx.thorough()
+    for hist in HISTORIES:
+        # quick: the normal history over the whole table, the other four thinned (one style per types x placement)
+        for cfg in table_cfgs(ctx.rng, ctx.scale(1, 4), history=hist, thin=quick and hist != "normal"):
+            scripted(ctx, cfg, use_model, batch)
+            if len(batch) >= 200:
+                flush(ctx, batch)
+    for klass, (pls, styles) in CLASSES.items():
+        for cfg in table_cfgs(ctx.rng, ctx.scale(1, 3), placements=pls, styles=styles, klass=klass, thin=quick):''')
+rep('''    for _ in range(ctx.scale(60, 2000)):
+        random_history(ctx, ctx.rng.randrange(1 << 30), use_model, batch)''', '''    for _ in range(ctx.scale(40, 2000)):
+        random_history(ctx, ctx.rng.randrange(1 << 30), use_model, batch)''')
+rep('''    lan_table_check(ctx, False, [])
+    for klass, (pls, styles) in CLASSES.items():
+        for cfg in table_cfgs(ctx.rng, 1, placements=pls, styles=styles, klass=klass):
             scripted(ctx, cfg, False, [])
             if len(ctx.failures) >= 20:
                 return
+    for hist in ("normal", "repeat"):
+        for cfg in table_cfgs(ctx.rng, 1, history=hist):
+            scripted(ctx, cfg, False, [])
+            if len(ctx.failures) >= 20:
+                return''', '''    lan_table_check(ctx, False, [])
     for klass, (pls, styles) in CLASSES.items():
-        for cfg in table_cfgs(ctx.rng, 2, placements=pls, styles=styles, klass=klass):
+        for cfg in table_cfgs(ctx.rng, 1, placements=pls, styles=styles, klass=klass, thin=True):
             scripted(ctx, cfg, False, [])
             if len(ctx.failures) >= 20:
                 return''')
-rep('''           "overlays": "other-first", "ages": [2 ** 32 + 5, 70000, 65534]}''', '''           "overlays": "other-first", "ages": [2 ** 32 + 5, 70000, 65534], "klass": "std"}''')
+rep('''A fixed number of cases (every class once, two histories of the table once: about a minute)."""''',
+    '''A fixed number of cases (every scripted class once, thinned: well under a minute)."""''')
 open(p, 'w').write(s)
 print("ok")
